@@ -134,3 +134,60 @@ func (c *Ctx) errDiscipline(fn *ssa.Function, match func(*core.Call) bool) (find
 	}
 	return findings, npaths, nil
 }
+
+
+// errDisciplineDeep is errDiscipline made compositional: a static call in fn to a declared function of fn's package
+// that makes matched calls (transitively) is itself a matched call of fn if it returns an error, and that helper is
+// checked the same way in turn (depth levels). A helper that makes matched calls but returns no error cannot report
+// their failure: errDiscipline flags the calls inside it. Returns the findings (each at its own call site), the
+// number of paths examined and the primitive matched call sites found in fn and its helpers.
+func (c *Ctx) errDisciplineDeep(fn *ssa.Function, match func(*core.Call) bool, depth int) (findings []errFinding, npaths int, sites []*core.Call, err error) {
+	seen := map[*ssa.Function]bool{}
+	var visit func(f *ssa.Function, d int) error
+	visit = func(f *ssa.Function, d int) error {
+		if seen[f] {
+			return nil
+		}
+		seen[f] = true
+		helpers := map[*ssa.Function]bool{}
+		if d > 0 {
+			for _, cl := range core.CallsIn(f) {
+				g := cl.Static
+				if g == nil || g == f || g.Pkg != f.Pkg || g.Parent() != nil || len(g.Blocks) == 0 || match(cl) {
+					continue
+				}
+				if _, isGo := cl.Instr.(*ssa.Go); isGo {
+					continue
+				}
+				if c.reaches(g, 2, match) {
+					helpers[g] = true
+				}
+			}
+		}
+		for _, cl := range core.CallsIn(f) {
+			if match(cl) {
+				sites = append(sites, cl)
+			}
+		}
+		returnsErr := func(g *ssa.Function) bool {
+			r := g.Signature.Results()
+			return r.Len() > 0 && types.Identical(r.At(r.Len()-1).Type(), errorType)
+		}
+		fs, n, e := c.errDiscipline(f, func(cl *core.Call) bool {
+			return match(cl) || (cl.Static != nil && helpers[cl.Static] && returnsErr(cl.Static))
+		})
+		if e != nil {
+			return e
+		}
+		findings = append(findings, fs...)
+		npaths += n
+		for g := range helpers {
+			if e := visit(g, d-1); e != nil {
+				return e
+			}
+		}
+		return nil
+	}
+	err = visit(fn, depth)
+	return
+}
